@@ -105,6 +105,757 @@ def check_tree(ctx=None):
                                  "`PYTHONPATH=/verif/harness /venv/bin/python -m crv.props.c19 --regen` and review:\n" + d)
 
 
+
+def _node(p, path):
+    for k in path:
+        p = getattr(p, k)
+    return p
+
+
+def _tok(v):
+    return repr(v)
+
+
+def _walk(p, path=()):
+    """Yield (path, node) over the REAL parameter object graph (children = attributes that are BaseParam instances)."""
+    from commonroad.visualization.draw_params import BaseParam
+    yield path, p
+    for k, v in vars(p).items():
+        if isinstance(v, BaseParam):
+            yield from _walk(v, path + (k,))
+
+
+def snapshot(p):
+    """{(path, attribute): token} for every public non-group attribute of every node."""
+    from commonroad.visualization.draw_params import BaseParam
+    snap = {}
+    for path, node in _walk(p):
+        for k, v in vars(node).items():
+            if k.startswith("_") or isinstance(v, BaseParam):
+                continue
+            snap[(path, k)] = _tok(v)
+    return snap
+
+
+def _values_for(field, p, node_path):
+    """Two values of the declared type of `field`, the first different from the value at the first node holding it."""
+    cur = None
+    for path, node in _walk(p):
+        if len(path) >= len(node_path) and tuple(path[:len(node_path)]) == tuple(node_path) and field in vars(node):
+            cur = getattr(node, field)
+            break
+    else:
+        for path, node in _walk(p):
+            if field in vars(node):
+                cur = getattr(node, field)
+                break
+    if isinstance(cur, bool):
+        return [not cur, cur]
+    if isinstance(cur, int):
+        return [7, 8]
+    if isinstance(cur, float):
+        return [7.5, 8.5]
+    if isinstance(cur, str):
+        return ["#010203", "#040506"]
+    if isinstance(cur, dict):
+        return [{"k": 1}, {"k": 2}]
+    if field in ("draw_ids", "show_traffic_signs"):
+        return [[1, 2], [3]]
+    if field == "linewidth":
+        return [7.5, 8.5]
+    return ["#010203", "#040506"]
+
+
+def _do_set(p, node_path, field, value, route):
+    node = _node(p, node_path)
+    try:
+        if route == "item":
+            node[field] = value
+        else:
+            setattr(node, field, value)
+        return "ok"
+    except Exception as ex:
+        return "exc:" + type(ex).__name__
+
+
+def _set_event(p, node_path, field, value, route, sig):
+    before = snapshot(p)
+    res = _do_set(p, node_path, field, value, route)
+    after = snapshot(p)
+    vals = [[list(path), tok] for (path, k), tok in sorted(after.items()) if k == field]
+    changed = [[list(path), k] for (path, k) in sorted(set(before) | set(after))
+               if before.get((path, k), "<absent>") != after.get((path, k), "<absent>")]
+    return {"op": "set", "node": list(node_path), "field": field, "v": _tok(value), "res": res, "vals": vals,
+            "changed": changed, "sig": sig}
+
+
+def _exec_tree(case):
+    import random
+    from commonroad.visualization.draw_params import MPDrawParams
+    node_path = tuple(case["node"])
+    rng = random.Random(case["seed"])
+    ev = []
+    all_nodes = [path for path, _ in _walk(MPDrawParams())]
+    at = "root" if not node_path else ("leaf" if not any(len(q) > len(node_path) and q[:len(node_path)] == node_path
+                                                          for q in all_nodes) else "inner")
+    for field in case["fields"]:
+        p = MPDrawParams()
+        v1, v2 = _values_for(field, p, node_path)
+        below = any(len(q) >= len(node_path) and q[:len(node_path)] == node_path and field in vars(_node(p, q))
+                    for q in all_nodes)
+        name = field if field in ("time_begin", "time_end", "facecolor", "show_label", "zorder", "antialiased") else "field"
+        sig = "propagate/%s@%s%s" % (name, at, "" if below else "/undeclared-below")
+        ev.append(_set_event(p, node_path, field, v1, "attr", sig))
+        if not below:
+            continue
+        ev.append(_set_event(p, node_path, field, v1, "item", sig + "/again"))
+        # a Set of another field somewhere else, then the first field once more with another value
+        other = rng.choice(all_nodes)
+        g = rng.choice([f for f in case["fields"] if f != field])
+        w = _values_for(g, p, other)[0]
+        ev.append(_set_event(p, other, g, w, "attr", "propagate/other-field"))
+        ev.append(_set_event(p, node_path, field, v2, "attr", sig + "/after-other"))
+    return ev
+
+
+
+# =====================================================================================================================
+# (2) time window: lattice scenarios, drawn cells, lanelets
+# =====================================================================================================================
+CELL = 10.0
+TMAX = 8
+LANELETS = (101, 102, 103)                       # lanelet 101+k lives in cell column k of row -1
+FILTERS = {"none": None, "empty": [], "one": [101], "two": [102, 103], "all": [101, 102, 103], "unknown": [999],
+           "mixed": [101, 999]}
+
+
+def _centre(oid, col):
+    return (CELL * col + 5.0, CELL * oid + 5.0)
+
+
+def build_obstacle(d):
+    """Descriptor {id, kind, t0, n} -> obstacle whose occupancy at time t is a 2x2 square centred in cell (id, t)."""
+    from crv import gamma as G
+    from commonroad.prediction.prediction import Occupancy, SetBasedPrediction
+    from commonroad.scenario.obstacle import DynamicObstacle, ObstacleType
+    oid, kind, t0, n = d["id"], d["kind"], d["t0"], d["n"]
+    sq = lambda c=(0.0, 0.0): G.rect(2.0, 2.0, c)
+    if kind == "static":
+        from commonroad.scenario.obstacle import StaticObstacle
+        x, y = _centre(oid, 0)
+        return StaticObstacle(oid, ObstacleType.PARKED_VEHICLE, sq(), G.init_state(x, y, t=t0))
+    if kind == "env":
+        return G.environment_obstacle(oid, sq(_centre(oid, 0)))
+    if kind == "dyn-none":
+        x, y = _centre(oid, t0)
+        return G.dynamic_obstacle(oid, x, y, sq(), None, t0)
+    if kind == "dyn-traj":
+        x, y = _centre(oid, t0)
+        return G.dynamic_obstacle(oid, x, y, sq(), [_centre(oid, t0 + 1 + i) + (0.0,) for i in range(n)], t0)
+    if kind == "dyn-set":
+        x, y = _centre(oid, t0)
+        pred = SetBasedPrediction(t0 + 1, [Occupancy(t0 + 1 + i, sq(_centre(oid, t0 + 1 + i))) for i in range(n)])
+        return DynamicObstacle(oid, ObstacleType.CAR, sq(), G.init_state(x, y, t=t0), pred)
+    if kind == "phantom-set":
+        return G.phantom_obstacle(oid, [(t0 + i, sq(_centre(oid, t0 + i))) for i in range(n)])
+    raise tlc.MachineryError("unknown obstacle kind %r" % (kind,))
+
+
+def build_window_scenario(descs):
+    from crv import gamma as G
+    sc = G.scenario()
+    sc.add_objects(G.network([G.lanelet(lid, CELL * k + 2.0, -6.5, 6.0, 3.0) for k, lid in enumerate(LANELETS)]))
+    for d in descs:
+        sc.add_objects(build_obstacle(d))
+    return sc
+
+
+def _bbox_centre(xy):
+    import numpy as np
+    xy = np.asarray(xy, dtype=float)
+    return (float(xy[:, 0].min() + xy[:, 0].max()) / 2.0, float(xy[:, 1].min() + xy[:, 1].max()) / 2.0)
+
+
+def observe_patches(renderer):
+    """obstacle_patches -> (sorted distinct cells [row, col], number of patches that cannot be attributed)."""
+    import math
+    import matplotlib.patches as mp
+    cells, stray = set(), 0
+    for pa in renderer.obstacle_patches:
+        if isinstance(pa, mp.Polygon):
+            cx, cy = _bbox_centre(pa.get_xy())
+        elif isinstance(pa, (mp.Ellipse, mp.Circle)):
+            cx, cy = pa.center
+        else:
+            stray += 1
+            continue
+        row, col = int(math.floor(cy / CELL)), int(math.floor(cx / CELL))
+        if row < 1 or col < 0 or col > 1000:
+            stray += 1
+        else:
+            cells.add((row, col))
+    return [list(c) for c in sorted(cells)], stray
+
+
+def observe_lanelets(renderer):
+    """Lanelet ids whose paths/polygons sit in a collection of renderer.static_collections; stray = paths elsewhere."""
+    import math
+    import matplotlib.collections as mc
+    ids, stray = set(), 0
+    for col in renderer.static_collections:
+        if not isinstance(col, (mc.PolyCollection, mc.PathCollection, mc.PatchCollection, mc.LineCollection)):
+            continue
+        for path in col.get_paths():
+            if len(path.vertices) == 0:
+                continue
+            cx, cy = _bbox_centre(path.vertices)
+            row, k = int(math.floor(cy / CELL)), int(math.floor(cx / CELL))
+            if row == -1 and 0 <= k < len(LANELETS):
+                ids.add(LANELETS[k])
+            else:
+                stray += 1
+    return sorted(ids), stray
+
+
+def model_occupancies(sc):
+    occ = []
+    for o in sc.obstacles:
+        for t in range(TMAX + 1):
+            if o.occupancy_at_time(t) is not None:
+                occ.append([int(o.obstacle_id), t])
+    return sorted(occ)
+
+
+def statement_flags(p):
+    """The flag setting of the statement, set at the top level (propagation carries it to every obstacle group)."""
+    p.draw_shape = True
+    p.draw_icon = False
+    p.draw_signals = False
+    p.draw_trajectory = False
+    p.draw_occupancies = False
+    p.draw_history = False
+
+
+def _params_window(b, e, route):
+    from commonroad.visualization.draw_params import MPDrawParams
+    if route == "ctor":
+        p = MPDrawParams(time_begin=b, time_end=e)
+    else:
+        p = MPDrawParams()
+        if route == "item":
+            p["time_begin"] = b
+            p["time_end"] = e
+        else:
+            p.time_begin = b
+            p.time_end = e
+    return p
+
+
+class _Fig:
+    """One matplotlib figure reused for the renders of one case; replaced after an exception, closed at the end."""
+
+    def __init__(self):
+        self.fig = self.ax = None
+
+    def get(self):
+        import matplotlib.pyplot as plt
+        if self.fig is None:
+            self.fig, self.ax = plt.subplots(figsize=(3, 2), dpi=50)
+        return self.fig, self.ax
+
+    def drop(self):
+        import matplotlib.pyplot as plt
+        plt.close("all")
+        self.fig = self.ax = None
+
+
+def _exc(ex):
+    return "exc:" + type(ex).__name__
+
+
+def draw_and_render(figs, params, drawables, observe=None):
+    """draw every drawable, call observe(renderer) between draw and render, render + rasterise.  Returns (draw result,
+    render result, observation)."""
+    from commonroad.visualization.mp_renderer import MPRenderer
+    fig, ax = figs.get()
+    obs = None
+    try:
+        r = MPRenderer(draw_params=params, ax=ax)
+        for d in drawables:
+            d.draw(r)
+    except Exception as ex:
+        figs.drop()
+        return _exc(ex), "skipped", None
+    if observe is not None:
+        obs = observe(r)
+    try:
+        r.render()
+        fig.canvas.draw()
+    except Exception as ex:
+        figs.drop()
+        return "ok", _exc(ex), obs
+    return "ok", "ok", obs
+
+
+def _wclass(d, b, e):
+    if d["kind"] in ("static", "env"):
+        return "any"
+    first = d["t0"]
+    last = d["t0"] + d["n"] - (1 if d["kind"] == "phantom-set" else 0)
+    if e < first:
+        return "before"
+    if b > last:
+        return "after"
+    return "straddle-start" if b < first else "inside"
+
+
+def _exec_window(case):
+    descs, b, e = case["obs"], case["b"], case["e"]
+    kind = descs[0]["kind"] if len(descs) == 1 else "mixed"
+    tag = "%s/%s" % (kind, _wclass(descs[0], b, e) if len(descs) == 1 else "all")
+    figs, ev = _Fig(), []
+    try:
+        for i, fname in enumerate(case["filters"]):
+            route = ("attr", "ctor", "item")[(b + e + i) % 3]
+            sc = build_window_scenario(descs)
+            p = _params_window(b, e, route)
+            statement_flags(p)
+            ids = FILTERS[fname]
+            if ids is not None:
+                p.lanelet_network.draw_ids = list(ids)
+            occ = model_occupancies(sc)
+            dres, rres, obs = draw_and_render(figs, p, [sc], lambda r: (observe_patches(r), observe_lanelets(r)))
+            ev.append({"op": "draw", "part": "window", "res": dres, "sig": "draw/" + tag})
+            if obs is not None:
+                (cells, stray), (lids, lstray) = obs
+                ev.append({"op": "drawn", "obs": descs, "b": b, "e": e, "occ": occ, "drawn": cells, "stray": stray,
+                           "sig": "drawn/" + tag})
+                ev.append({"op": "lanelets", "net": list(LANELETS), "filter": 0 if ids is None else 1,
+                           "ids": list(ids or []), "lanelets": lids, "stray": lstray, "sig": "lanelets/" + fname})
+            ev.append({"op": "render", "res": rres, "sig": "render/" + tag})
+    finally:
+        figs.drop()
+    return ev
+
+
+
+# =====================================================================================================================
+# (3) totality: archetypes x windows x flag rows
+# =====================================================================================================================
+# boolean flags set on their own group ("path:field"); ":field" = set at the top level (reaches every group declaring it)
+NODE_FLAGS = [
+    "dynamic_obstacle:draw_shape", "dynamic_obstacle:draw_icon", "dynamic_obstacle:draw_direction",
+    "dynamic_obstacle:draw_bounding_box", "dynamic_obstacle:show_label", "dynamic_obstacle:draw_signals",
+    "dynamic_obstacle:draw_initial_state", "dynamic_obstacle.history:draw_history",
+    "dynamic_obstacle.occupancy:draw_occupancies", "dynamic_obstacle.trajectory:draw_trajectory",
+    "dynamic_obstacle.trajectory:draw_continuous", "dynamic_obstacle.trajectory:unique_colors",
+    "dynamic_obstacle.state:draw_arrow",
+    "phantom_obstacle:draw_shape", "phantom_obstacle.occupancy:draw_occupancies",
+    "static_obstacle.occupancy:draw_occupancies", "environment_obstacle.occupancy:draw_occupancies",
+    "lanelet_network.lanelet:unique_colors", "lanelet_network.lanelet:draw_stop_line",
+    "lanelet_network.lanelet:draw_line_markings", "lanelet_network.lanelet:draw_left_bound",
+    "lanelet_network.lanelet:draw_right_bound", "lanelet_network.lanelet:draw_center_bound",
+    "lanelet_network.lanelet:draw_border_vertices", "lanelet_network.lanelet:draw_start_and_direction",
+    "lanelet_network.lanelet:colormap_tangent", "lanelet_network.lanelet:show_label",
+    "lanelet_network.lanelet:fill_lanelet",
+    "lanelet_network.intersection:draw_intersections", "lanelet_network.intersection:draw_incoming_lanelets",
+    "lanelet_network.intersection:draw_crossings", "lanelet_network.intersection:draw_successors",
+    "lanelet_network.intersection:show_label",
+    "lanelet_network.traffic_sign:draw_traffic_signs", "lanelet_network.traffic_sign:show_label",
+    "lanelet_network.traffic_light:draw_traffic_lights", "lanelet_network.traffic_light:show_label",
+    "traffic_sign:draw_traffic_signs", "traffic_sign:show_label", "traffic_light:draw_traffic_lights",
+    "traffic_light:show_label",
+    "planning_problem_set.planning_problem.initial_state.state:draw_arrow",
+    ":axis_visible", ":antialiased",
+]
+# the flags of the statement, set at the top level; full product in the thorough tier
+ROOT_FLAGS = [":draw_shape", ":draw_icon", ":draw_direction", ":show_label", ":draw_signals", ":draw_initial_state",
+              ":draw_history", ":draw_occupancies", ":draw_trajectory", ":draw_continuous", ":draw_arrow",
+              ":draw_border_vertices"]
+LFILTERS = {"all": None, "none-selected": [], "some": [101, 103], "unknown": [999]}
+PFILTERS = {"all": None, "none-selected": [], "some": [11, 13], "unknown": [99]}
+
+
+def _base_net(signs=False, inter=False):
+    import numpy as np
+    from crv import gamma as G
+    from commonroad.scenario.lanelet import LineMarking, StopLine
+    kw = {}
+    if signs:
+        kw = dict(traffic_signs={201}, traffic_lights={301},
+                  stop_line=StopLine(np.array([19.0, 0.0]), np.array([19.0, 3.0]), LineMarking.SOLID))
+    l1 = G.lanelet(101, 0, 0, 20, 3, n=3, successor=[102], **kw)
+    l2 = G.lanelet(102, 20, 0, 20, 3, n=3, predecessor=[101], line_marking_left_vertices=LineMarking.DASHED,
+                   line_marking_right_vertices=LineMarking.SOLID)
+    l3 = G.lanelet(103, 0, 3, 20, 3, n=3, adjacent_right=101, adjacent_right_same_direction=True)
+    net = G.network([l1, l2, l3])
+    if signs:
+        net.add_traffic_sign(G.sign(201, (18.0, -1.0), {101}), {101})
+        net.add_traffic_light(G.light(301, (19.0, -1.0)), {101})
+    if inter:
+        net.add_intersection(G.intersection(401, [(402, {101}, set(), {102}, set(), None)], {103}))
+    return net
+
+
+def _full_init(x, y, t, position=None, orientation=0.0):
+    import numpy as np
+    from commonroad.scenario.state import InitialState
+    return InitialState(time_step=t, position=np.array([x, y], dtype=float) if position is None else position,
+                        orientation=orientation, velocity=1.0, acceleration=0.0, yaw_rate=0.0, slip_angle=0.0)
+
+
+def build_archetype(name):
+    """-> (scenario, planning problem set or None).  Obstacle horizons lie in time steps 1..4."""
+    import numpy as np
+    from crv import gamma as G
+    from commonroad.common.util import AngleInterval, Interval
+    from commonroad.geometry.shape import Circle, Polygon, Rectangle, ShapeGroup
+    from commonroad.planning.goal import GoalRegion
+    from commonroad.planning.planning_problem import PlanningProblem, PlanningProblemSet
+    from commonroad.prediction.prediction import Occupancy, SetBasedPrediction, TrajectoryPrediction
+    from commonroad.scenario.obstacle import (DynamicObstacle, EnvironmentObstacle, ObstacleType, PhantomObstacle,
+                                              SignalState, StaticObstacle)
+    from commonroad.scenario.state import CustomState, InitialState, KSState, PMState
+    from commonroad.scenario.trajectory import Trajectory
+    sc, pps = G.scenario(), None
+    R = Rectangle(4.0, 2.0)
+    arr = lambda *a: np.array(a, dtype=float)
+    env_poly = Polygon(arr([0, 8], [5, 8], [5, 12], [0, 12]))
+    if name == "empty":
+        return sc, pps
+    sc.add_objects(_base_net(signs=(name == "signs-lights"), inter=(name == "signs-lights")))
+    if name == "plain":                       # all four roles, kinematic states, signals, every shape class
+        sig = dict(horn=True, indicator_left=True, indicator_right=False, braking_lights=True,
+                   hazard_warning_lights=False, flashing_blue_lights=True)
+        sig2 = dict(horn=False, indicator_left=False, indicator_right=True, braking_lights=False,
+                    hazard_warning_lights=True, flashing_blue_lights=False)
+        sc.add_objects(G.static_obstacle(1, 5, 1.5, R))
+        sc.add_objects(DynamicObstacle(2, ObstacleType.CAR, R, G.init_state(2, 4.5, t=1), G.trajectory_prediction(
+            R, [(4, 4.5, 0.0), (6, 4.5, 0.1), (8, 4.5, 0.2)], 2), initial_signal_state=SignalState(time_step=1, **sig),
+            signal_series=[SignalState(time_step=2, **sig2), SignalState(time_step=3, **sig)]))
+        sc.add_objects(DynamicObstacle(3, ObstacleType.BICYCLE, Circle(1.0), G.init_state(22, 1.5, t=1), SetBasedPrediction(
+            2, [Occupancy(2, Rectangle(4, 2, arr(24, 1.5))), Occupancy(3, Circle(1.0, arr(26, 1.5)))])))
+        sc.add_objects(G.phantom_obstacle(4, [(1, Rectangle(2, 2, arr(30, 1.5))),
+                                              (2, Polygon(arr([31, 0.5], [33, 0.5], [32, 2.5])))]))
+        sc.add_objects(G.environment_obstacle(5, env_poly))
+        sc.add_objects(DynamicObstacle(6, ObstacleType.TRUCK, Polygon(arr([-2, -1], [2, -1], [2, 1], [-2, 1])),
+                                       G.init_state(12, 4.5, t=0),
+                                       G.trajectory_prediction(R, [(14, 4.5, 0.0), (16, 4.5, 0.0)], 1)))
+    elif name == "point-mass":                # trajectory states without an orientation field (PMState)
+        tr = Trajectory(2, [PMState(time_step=2 + i, position=arr(4 + 2 * i, 4.5), velocity=1.0, velocity_y=0.5)
+                            for i in range(3)])
+        sc.add_objects(DynamicObstacle(2, ObstacleType.CAR, R, _full_init(2, 4.5, 1), TrajectoryPrediction(tr, R)))
+        tr = Trajectory(2, [PMState(time_step=2, position=arr(4, 1.5), velocity=0.0, velocity_y=1.0)])
+        sc.add_objects(DynamicObstacle(3, ObstacleType.PEDESTRIAN, Circle(0.5), _full_init(2, 1.5, 1),
+                                       TrajectoryPrediction(tr, Circle(0.5))))
+    elif name == "custom-state":              # custom states carrying position and orientation only
+        tr = Trajectory(2, [CustomState(time_step=2 + i, position=arr(4 + 2 * i, 4.5), orientation=0.0)
+                            for i in range(3)])
+        sc.add_objects(DynamicObstacle(2, ObstacleType.TRUCK, R, _full_init(2, 4.5, 1), TrajectoryPrediction(tr, R)))
+    elif name == "no-orientation":            # custom states with velocity components instead of an orientation
+        tr = Trajectory(2, [CustomState(time_step=2 + i, position=arr(4 + 2 * i, 4.5), velocity=1.0, velocity_y=0.5)
+                            for i in range(3)])
+        sc.add_objects(DynamicObstacle(2, ObstacleType.CAR, R, _full_init(2, 4.5, 1), TrajectoryPrediction(tr, R)))
+    elif name == "uncertain-position":        # a Shape as position (initial and predicted), exact orientation
+        ist = _full_init(0, 0, 1, position=Rectangle(1.0, 1.0, arr(2, 4.5)))
+        tr = Trajectory(2, [KSState(time_step=2 + i, position=Circle(0.5, arr(4 + 2 * i, 4.5)), orientation=0.0,
+                                    velocity=1.0, steering_angle=0.0) for i in range(3)])
+        sc.add_objects(DynamicObstacle(2, ObstacleType.CAR, R, ist, TrajectoryPrediction(tr, R)))
+        sc.add_objects(StaticObstacle(1, ObstacleType.PARKED_VEHICLE, R, _full_init(
+            0, 0, 0, position=Polygon(arr([4, 1], [6, 1], [6, 2], [4, 2])))))
+        sc.add_objects(DynamicObstacle(3, ObstacleType.CAR, R, _full_init(0, 0, 0, position=Rectangle(1.0, 1.0, arr(12, 4.5)))))
+    elif name == "uncertain-orientation":     # exact position, orientation interval
+        ai = AngleInterval(-0.1, 0.1)
+        tr = Trajectory(2, [KSState(time_step=2 + i, position=arr(4 + 2 * i, 4.5), orientation=ai, velocity=1.0,
+                                    steering_angle=0.0) for i in range(3)])
+        sc.add_objects(DynamicObstacle(2, ObstacleType.CAR, R, _full_init(2, 4.5, 1, orientation=ai),
+                                       TrajectoryPrediction(tr, R)))
+        sc.add_objects(StaticObstacle(1, ObstacleType.PARKED_VEHICLE, R, _full_init(5, 1.5, 0, orientation=ai)))
+    elif name == "defaults":                  # every optional constructor argument left at its default
+        sc.add_objects(StaticObstacle(1, ObstacleType.UNKNOWN, R, InitialState(time_step=0, position=arr(5, 1.5),
+                                                                               orientation=0.0)))
+        sc.add_objects(DynamicObstacle(2, ObstacleType.UNKNOWN, R, InitialState(time_step=1, position=arr(2, 4.5),
+                                                                                orientation=0.0)))
+        sc.add_objects(PhantomObstacle(4))
+        sc.add_objects(EnvironmentObstacle(5, ObstacleType.BUILDING, env_poly))
+    elif name == "interval-sets":             # set-based occupancies over time intervals, shape groups
+        sc.add_objects(DynamicObstacle(3, ObstacleType.CAR, R, G.init_state(22, 1.5, t=1), SetBasedPrediction(2, [
+            Occupancy(Interval(2, 3), Rectangle(4, 2, arr(24, 1.5))),
+            Occupancy(Interval(4, 6), ShapeGroup([Circle(1.0, arr(26, 1.5)), Rectangle(1, 1, arr(28, 1.5))]))])))
+        sc.add_objects(PhantomObstacle(4, SetBasedPrediction(0, [Occupancy(Interval(0, 2), ShapeGroup(
+            [Rectangle(2, 2, arr(30, 1.5))]))])))
+    elif name in ("goals", "goal-no-position"):
+        sc.add_objects(G.static_obstacle(1, 5, 1.5, R))
+        ti = Interval(3, 5)
+        if name == "goals":                   # rectangle / lanelet / disc goals, reader-style time-only goal
+            gs = [GoalRegion([KSState(time_step=ti, position=Rectangle(4, 2, arr(30, 1.5)))]),
+                  GoalRegion([CustomState(time_step=ti, position=ShapeGroup(
+                      [sc.lanelet_network.find_lanelet_by_id(102).polygon]))], {0: [102]}),
+                  GoalRegion([CustomState(time_step=ti)]),
+                  GoalRegion([KSState(time_step=ti, position=Circle(2.0, arr(10, 4.5)),
+                                      orientation=AngleInterval(-0.2, 0.2), velocity=Interval(0, 3)),
+                              KSState(time_step=ti, position=Polygon(arr([30, 3], [34, 3], [32, 6])))])]
+        else:                                 # kinematic goal state constraining time and velocity only
+            gs = [GoalRegion([KSState(time_step=ti, velocity=Interval(0, 3))])]
+        pps = PlanningProblemSet([PlanningProblem(11 + i, G.init_state(1 + 2 * i, 1.5), g) for i, g in enumerate(gs)])
+    elif name == "signs-lights":
+        sc.add_objects(G.static_obstacle(1, 5, 1.5, R))
+    else:
+        raise tlc.MachineryError("unknown archetype %r" % (name,))
+    return sc, pps
+
+
+_DEFAULT_FLAGS = None
+
+
+def flag_defaults():
+    """Default of every flag; a top-level flag has no single default ("-")."""
+    global _DEFAULT_FLAGS
+    if _DEFAULT_FLAGS is None:
+        from commonroad.visualization.draw_params import MPDrawParams
+        p = MPDrawParams()
+        d = {}
+        for key in NODE_FLAGS:
+            path, f = key.split(":")
+            d[key] = int(bool(getattr(_node(p, [x for x in path.split(".") if x]), f)))
+        _DEFAULT_FLAGS = d
+    return _DEFAULT_FLAGS
+
+
+def apply_flags(p, flags):
+    """Top-level flags first (they reach every group), then the per-group flags."""
+    for key, v in sorted(flags.items(), key=lambda kv: (not kv[0].startswith(":"), kv[0])):
+        path, f = key.split(":")
+        setattr(_node(p, [x for x in path.split(".") if x]), f, bool(v))
+
+
+def _total_once(figs, arch, b, e, flags, lf, pf):
+    from commonroad.visualization.draw_params import MPDrawParams
+    sc, pps = build_archetype(arch)
+    p = MPDrawParams()
+    p.time_begin = b
+    p.time_end = e
+    apply_flags(p, flags)
+    if LFILTERS[lf] is not None:
+        p.lanelet_network.draw_ids = list(LFILTERS[lf])
+    if PFILTERS[pf] is not None:
+        p.planning_problem_set.draw_ids = list(PFILTERS[pf])
+    dres, rres, _ = draw_and_render(figs, p, [sc] + ([pps] if pps is not None else []))
+    return dres, rres
+
+
+_MINIMAL = {}       # per process: (arch, b, e, outcome) -> list of minimal settings already found
+
+
+def _short(key):
+    path, f = key.split(":")
+    return f if not path else path.split(".")[-1] + "." + f
+
+
+def minimise(figs, arch, b, e, flags, lf, pf, outcome):
+    """Smallest set of non-default settings (greedy removal) that still gives the same outcome: the label of the finding.
+    Only computes a name; the verdict is the logged outcome of the original run."""
+    defaults = flag_defaults()
+    cur = {k: v for k, v in flags.items() if k.startswith(":") or defaults[k] != v}
+    feats = {"lanelets": lf, "problems": pf}
+    items = frozenset(list(cur.items()) + [(k, v) for k, v in feats.items() if v != "all"])
+    for known in _MINIMAL.get((arch, b, e, outcome), []):
+        if known <= items:
+            return known
+    for key in sorted(cur, key=lambda k: (k.startswith(":"), k)):
+        trial = dict(cur)
+        del trial[key]
+        if _total_once(figs, arch, b, e, trial, feats["lanelets"], feats["problems"]) == outcome:
+            cur = trial
+    for k in ("lanelets", "problems"):
+        if feats[k] != "all":
+            trial = dict(feats, **{k: "all"})
+            if _total_once(figs, arch, b, e, cur, trial["lanelets"], trial["problems"]) == outcome:
+                feats = trial
+    res = frozenset(list(cur.items()) + [(k, v) for k, v in feats.items() if v != "all"])
+    _MINIMAL.setdefault((arch, b, e, outcome), []).append(res)
+    return res
+
+
+def _label(minimal, arch):
+    parts = []
+    for k, v in sorted(minimal):
+        if k in ("lanelets", "problems"):
+            parts.append("%s=%s" % (k, v))
+        else:
+            parts.append(_short(k) if v else "no-" + _short(k))
+    return "total/" + "+".join(parts + [arch])
+
+
+def _exec_total(case):
+    arch, flags, lf, pf = case["arch"], dict(case["flags"]), case["lf"], case["pf"]
+    on = sorted(k for k, v in flags.items() if v)
+    figs, ev = _Fig(), []
+    try:
+        for (wname, b, e) in case["wins"]:
+            outcome = _total_once(figs, arch, b, e, flags, lf, pf)
+            sig = "total/%s/%s" % (arch, wname)
+            if outcome != ("ok", "ok"):
+                sig = _label(minimise(figs, arch, b, e, flags, lf, pf, outcome), arch)
+            base = {"part": "total", "arch": arch, "win": wname, "b": b, "e": e, "on": on, "lf": lf, "pf": pf, "sig": sig}
+            ev.append(dict(base, op="draw", res=outcome[0]))
+            ev.append(dict(base, op="render", res=outcome[1]))
+    finally:
+        figs.drop()
+    return ev
+
+
+
+# =====================================================================================================================
+# driver interface
+# =====================================================================================================================
+
+def model_check(ctx):
+    ctx.mc("MC_Render", "MC_Render_t.cfg" if ctx.thorough else "MC_Render.cfg", coverage=True, timeout=1800)
+    ctx.mc("MC_Render", "MC_Render_win.cfg", coverage=True)
+
+
+def pairwise_rows(rng, factors, candidates=12):
+    """Greedy pairwise-covering rows over `factors` = {name: [values]} (seeded)."""
+    names = sorted(factors)
+    idx = [(i, j) for i in range(len(names)) for j in range(i + 1, len(names))]
+    uncovered = {(i, j, a, b) for (i, j) in idx for a in factors[names[i]] for b in factors[names[j]]}
+    rows = []
+    while uncovered:
+        best, best_cov = None, None
+        seed_pair = next(iter(sorted(uncovered, key=str)[:1]))
+        for _ in range(candidates):
+            row = [rng.choice(factors[n]) for n in names]
+            row[seed_pair[0]], row[seed_pair[1]] = seed_pair[2], seed_pair[3]       # progress guaranteed
+            cov = [(i, j, row[i], row[j]) for (i, j) in idx if (i, j, row[i], row[j]) in uncovered]
+            if best is None or len(cov) > len(best_cov):
+                best, best_cov = row, cov
+        uncovered.difference_update(best_cov)
+        rows.append(dict(zip(names, best)))
+    return rows
+
+
+def _row_case(arch, wins, row):
+    flags = {k: v for k, v in row.items() if ":" in k}
+    return {"part": "total", "arch": arch, "wins": wins[arch], "flags": flags, "lf": row.get("lf", "all"),
+            "pf": row.get("pf", "all")}
+
+
+def cases(ctx):
+    check_tree(ctx)
+    rng = ctx.rng
+    cs = []
+    # (1) tree: every node x every scalar field name of the table
+    tree = ctx.gen("MC_Render", "GEN_Render_tree.cfg")
+    for c in tree:
+        cs.append({"part": "tree", "node": list(c["node"]), "fields": sorted(c["fields"]), "seed": rng.randrange(1 << 30)})
+    # (2) windows: every descriptor x window, all lanelet filters; all descriptors in one scenario per window
+    win = ctx.gen("MC_Render", "GEN_Render_win.cfg")
+    descs, windows = [], []
+    for c in win:
+        d = {"id": 1, "kind": c["desc"]["kind"], "t0": c["desc"]["t0"], "n": c["desc"]["n"]}
+        cs.append({"part": "window", "obs": [d], "b": c["b"], "e": c["e"], "filters": sorted(FILTERS)})
+        if d not in descs:
+            descs.append(d)
+        if [c["b"], c["e"]] not in windows:
+            windows.append([c["b"], c["e"]])
+    descs.sort(key=lambda d: (d["kind"], d["t0"], d["n"]))
+    for b, e in sorted(windows):
+        cs.append({"part": "window", "obs": [dict(d, id=i + 1) for i, d in enumerate(descs)], "b": b, "e": e,
+                   "filters": ["none", "two"]})
+        for _ in range(8 if ctx.thorough else 1):                # random sub-scenarios, shuffled ids
+            sub = rng.sample(descs, 6)
+            ids = rng.sample(range(1, 30), 6)
+            cs.append({"part": "window", "obs": [dict(d, id=i) for d, i in zip(sub, ids)], "b": b, "e": e,
+                       "filters": [rng.choice(sorted(FILTERS))]})
+    ctx.extra["window_cases"] = {"descriptors": len(descs), "windows": len(windows)}
+    # (3) totality: archetype x window from the spec, flag rows from here
+    tot = ctx.gen("MC_Render", "GEN_Render_total.cfg")
+    wins = {}
+    for c in sorted(tot, key=lambda c: (c["arch"], c["b"], c["e"])):
+        wins.setdefault(c["arch"], []).append([c["win"], c["b"], c["e"]])
+    archs = sorted(wins)
+    factors = {k: [0, 1] for k in NODE_FLAGS}
+    factors.update({"arch": archs, "lf": sorted(LFILTERS), "pf": sorted(PFILTERS)})
+    rows = pairwise_rows(rng, factors)
+    n_pair = len(rows)
+    for row in rows:
+        cs.append(_row_case(row["arch"], wins, row))
+    for arch in archs:                                            # all defaults, everything on, everything off
+        for v in (None, 0, 1):
+            cs.append(_row_case(arch, wins, {} if v is None else {k: v for k in NODE_FLAGS}))
+    n_rand = 0
+    for _ in range(1500 if ctx.thorough else 500):
+        dens = rng.choice([0.1, 0.5, 0.9])
+        row = {k: int(rng.random() < dens) for k in NODE_FLAGS}
+        if rng.random() < 0.5:
+            row.update({k: rng.randint(0, 1) for k in ROOT_FLAGS if rng.random() < 0.3})
+        row["lf"], row["pf"] = rng.choice(sorted(LFILTERS)), rng.choice(sorted(PFILTERS))
+        cs.append(_row_case(rng.choice(archs), wins, row))
+        n_rand += 1
+    n_prod = 0
+    if ctx.thorough:                                              # full product over the top-level flags of the statement
+        short = {a: [w for w in wins[a] if w[0] in ("at-start", "inside", "after")] for a in archs}
+        root_fields = {k[1:] for k in ROOT_FLAGS}
+        free = [k for k in NODE_FLAGS if k.split(":")[1] not in root_fields]
+        for bits in range(1 << len(ROOT_FLAGS)):
+            base = {k: (bits >> i) & 1 for i, k in enumerate(ROOT_FLAGS)}
+            for arch in archs:
+                row = dict(base)
+                row.update({k: rng.randint(0, 1) for k in free})
+                row["lf"], row["pf"] = rng.choice(sorted(LFILTERS)), rng.choice(sorted(PFILTERS))
+                cs.append(_row_case(arch, short, row))
+                n_prod += 1
+    ctx.extra["total_rows"] = {"pairwise": n_pair, "random": n_rand, "product": n_prod, "archetypes": len(archs),
+                               "flags": len(NODE_FLAGS), "top_level_flags": len(ROOT_FLAGS)}
+    return cs
+
+
+def execute(case):
+    use_repo()
+    import warnings
+    warnings.filterwarnings("ignore")
+    part = case["part"]
+    if part == "tree":
+        return {"ev": _exec_tree(case)}
+    if part == "window":
+        return {"ev": _exec_window(case)}
+    if part == "total":
+        return {"ev": _exec_total(case)}
+    raise tlc.MachineryError("unknown case part %r" % (part,))
+
+
+def nontrivial(case):
+    if case["part"] == "tree":
+        return ("tree", tuple(case["node"]))
+    if case["part"] == "window":
+        return ("window", json.dumps(case["obs"], sort_keys=True), case["b"], case["e"], tuple(case["filters"]))
+    return ("total", case["arch"], json.dumps(case["flags"], sort_keys=True), case["lf"], case["pf"])
+
+
+def corrupt(trace, rng):
+    """Corrupt ONE logged observation; the trace spec must reject exactly that event."""
+    evs = trace["ev"]
+    i = rng.randrange(len(evs))
+    e = evs[i]
+    if e["op"] == "set":
+        mine = [x for x in e["vals"] if x[0] == e["node"]]
+        if mine and rng.random() < 0.5:
+            mine[0][1] = "<corrupted>"                            # the node itself did not take the value -> missed
+        else:
+            e["changed"].append([["static_obstacle"], "<no-such-field>"])      # something else changed -> clobbered
+    elif e["op"] == "drawn":
+        e["drawn"].append([99, 0])                                # a shape nobody reported -> extra
+    elif e["op"] == "lanelets":
+        if e["lanelets"] and rng.random() < 0.5:
+            e["lanelets"].pop()                                   # -> missing
+        else:
+            e["lanelets"].append(555)                             # -> extra
+    else:
+        e["res"] = "exc:Corrupted"
+    return trace
+
+
 if __name__ == "__main__":
     if "--regen" in sys.argv:
         with open(TREE_FILE, "w") as f:
